@@ -103,8 +103,27 @@ def run(tier, rep):
         bases.append(("corpus:" + c["name"], open(c["src"], encoding="utf-8").read()))
 
     # ---------------- hover sweep with the compile path's oracle
-    reqs = [{"id": k, "text": t, "dir": memdir, "all": True, "oracle": True, "limit_s": 600} for k, (n, t) in enumerate(bases)]
+    # phase 1: the oracle (typed AST of the compile path); phase 2: the positions -- every byte offset of texts up to 1500 bytes,
+    # for longer ones every identifier the oracle knows plus an even sample of the rest (a sweep of a 20 kB program would take hours)
+    o1 = gv_robust("query", [{"id": k, "text": t, "dir": memdir, "positions": [], "oracle": True, "limit_s": 300} for k, (n, t) in enumerate(bases)], shards=min(16, len(bases)))
+    reqs = []
+    for k, ((n, t), r) in enumerate(zip(bases, o1)):
+        b = t.encode()
+        if len(b) <= 1500:
+            reqs.append({"id": k, "text": t, "dir": memdir, "all": True, "limit_s": 600})
+            continue
+        offs = set(range(0, len(b) + 1, max(1, len(b) // 700)))
+        for o in (r.get("oracle") or []):
+            offs.update(range(o["s"], min(o["e"], o["s"] + 24)))
+        offs = sorted(offs)[:2500]
+        pos = [list(line_col(b, off)) for off in offs]
+        last = line_col(b, len(b))
+        pos += [[last[0], last[1] + 1], [last[0] + 1, 0], [last[0] + 7, 3], [4294967295, 4294967295], [0, 4294967295]]
+        reqs.append({"id": k, "text": t, "dir": memdir, "positions": pos, "limit_s": 900})
     res = gv_robust("query", reqs, shards=min(16, len(reqs)))
+    for r, r1 in zip(res, o1):
+        if "oracle" in r1 and not r.get("fatal"):
+            r["oracle"] = r1.get("oracle")
     oracle_points = 0
     compiled_bases = 0
     for (name, text), r in zip(bases, res):
